@@ -119,11 +119,14 @@ def cache_dir(with_tests=False):
     os.makedirs(base, exist_ok=True)
     d = os.path.join(base, key)
     if not os.path.isdir(d):
-        # prune old cache entries: keep the 3 most recent
+        # prune old cache entries: keep the 40 most recent and never touch one used in the last two hours (concurrent runs
+        # with different overlays each have their own entry)
         try:
+            now = time.time()
             ents = sorted((os.path.join(base, e) for e in os.listdir(base)), key=os.path.getmtime)
-            for e in ents[:-6]:
-                shutil.rmtree(e, ignore_errors=True)
+            for e in ents[:-40]:
+                if now - os.path.getmtime(e) > 7200:
+                    shutil.rmtree(e, ignore_errors=True)
         except OSError:
             pass
         os.makedirs(d, exist_ok=True)
